@@ -675,3 +675,100 @@ Proof.
   nra.
 Qed.
 End Uniform.
+
+(* ---------- non-vacuity: a concrete instance meeting every hypothesis above ----------
+   one state, two actions (self-loops), rewards 0 and ln 3, gamma = 1/2, weight 1, uniform prior:
+   soft values v = 2 ln 2, q = (ln 2, ln 6), policy (1/4, 3/4); hard optimum 2 ln 3. *)
+Section Example.
+Let exT : nat -> nat -> nat -> R := fun _ _ _ => 1.
+Let exR : nat -> nat -> nat -> R := fun _ a _ => match a with O => 0 | _ => ln 3 end.
+Let exL : nat -> R := fun _ => 1.
+Let exP0 : nat -> nat -> R := fun _ _ => / INR 2.
+Let exPi : nat -> nat -> R := fun _ a => match a with O => 1/4 | _ => 3/4 end.
+Let exV : nat -> R := fun _ => 2 * ln 2.
+Let exQ : nat -> nat -> R := fun _ a => match a with O => ln 2 | _ => ln 3 + ln 2 end.
+
+Ltac exev := cbv [eval_system lookahead softmax lse Zsum s_ent s_rf mp hardmax maxf odflt sumf
+                  nadd n0 nmax nleb NumR exT exR exL exP0 exPi exV exQ INR E1_at E3_at].
+
+Lemma two_cases (P : nat -> Prop) : P 0%nat -> P 1%nat -> forall a, (a < 2)%nat -> P a.
+Proof. intros H0 H1 a Ha. destruct a as [|[|a]]; [auto|auto|lia]. Qed.
+Lemma one_case (P : nat -> Prop) : P 0%nat -> forall s, (s < 1)%nat -> P s.
+Proof. intros H0 s Hs. destruct s; [auto|lia]. Qed.
+
+Lemma ex_wf : wf 1 2 exT (1/2) exL exP0.
+Proof.
+  constructor; try lia; try lra; intros; exev; try lra.
+  all: try (apply Rinv_0_lt_compat; lra); try field.
+Qed.
+
+Lemma exp_ln2 : exp (ln 2 / 1) = 2.
+Proof. replace (ln 2 / 1) with (ln 2) by field. apply exp_ln. lra. Qed.
+Lemma exp_ln6 : exp ((ln 3 + ln 2) / 1) = 6.
+Proof.
+  replace ((ln 3 + ln 2) / 1) with (ln 3 + ln 2) by field.
+  rewrite exp_plus, !exp_ln; lra.
+Qed.
+
+Lemma ex_look : forall s a, (s < 1)%nat -> (a < 2)%nat -> exQ s a = lookahead 1 exT exR (1/2) exV s a.
+Proof.
+  intros s a Hs. revert a. revert s Hs.
+  apply (one_case (fun s => forall a, (a < 2)%nat -> exQ s a = lookahead 1 exT exR (1/2) exV s a)).
+  apply two_cases; exev; lra.
+Qed.
+
+Lemma ex_pi : forall s a, (s < 1)%nat -> (a < 2)%nat -> exPi s a = softmax 2 exL exP0 exQ s a.
+Proof.
+  intros s a Hs. revert a. revert s Hs.
+  apply (one_case (fun s => forall a, (a < 2)%nat -> exPi s a = softmax 2 exL exP0 exQ s a)).
+  apply two_cases; exev; rewrite exp_ln2, exp_ln6; field.
+Qed.
+
+Lemma ex_eval : eval_system 1 2 exT exR (1/2) exL exP0 exPi exV.
+Proof.
+  unfold eval_system. intros s Hs. destruct s; [clear Hs|lia]. exev.
+  replace (1 / 4 / / (1 + 1)) with (/ 2) by field.
+  replace (3 / 4 / / (1 + 1)) with (3 * / 2) by field.
+  rewrite (ln_mult 3 (/ 2)); [|lra|apply Rinv_0_lt_compat; lra]. rewrite ln_Rinv by lra. lra.
+Qed.
+
+(* hence, by entreg_fixed_point, (exV, exQ) is an exact soft fixed point *)
+Lemma ex_soft_fixed : soft_fixed 1 2 exT exR (1/2) exL exP0 exV exQ.
+Proof.
+  split.
+  - intros s a Hs Ha. unfold E1_at. rewrite <- (ex_look s a Hs Ha).
+    replace (exQ s a - exQ s a) with 0 by lra. rewrite Rabs_R0. lra.
+  - intros s Hs. unfold E3_at.
+    rewrite <- (entreg_fixed_point 1 2 exT exR (1/2) exL exP0 ex_wf exPi exV exQ ex_eval ex_look ex_pi s Hs).
+    replace (exV s - exV s) with 0 by lra. rewrite Rabs_R0. lra.
+Qed.
+
+Lemma ex_hard_fixed : hard_fixed 1 2 exT exR (1/2) (fun _ => 2 * ln 3).
+Proof.
+  unfold hard_fixed. intros s Hs. destruct s; [clear Hs|lia]. exev.
+  assert (0 < ln 3) by (rewrite <- ln_1; apply ln_increasing; lra).
+  unfold Rleb. destruct (Rle_dec _ _); lra.
+Qed.
+
+(* the instance is non-trivial: the two actions have different soft values, the policy is not
+   uniform, and the soft and hard solutions differ *)
+Lemma ex_nontrivial : exQ 0%nat 0%nat < exQ 0%nat 1%nat /\ exPi 0%nat 0%nat <> exPi 0%nat 1%nat /\ exV 0%nat < 2 * ln 3.
+Proof.
+  assert (0 < ln 3) by (rewrite <- ln_1; apply ln_increasing; lra).
+  assert (ln 2 < ln 3) by (apply ln_increasing; lra).
+  exev. repeat split; lra.
+Qed.
+
+Definition example_statement : Prop :=
+  wf 1 2 exT (1/2) exL exP0 /\ eval_system 1 2 exT exR (1/2) exL exP0 exPi exV /\
+  (forall s a, (s < 1)%nat -> (a < 2)%nat -> exQ s a = lookahead 1 exT exR (1/2) exV s a) /\
+  (forall s a, (s < 1)%nat -> (a < 2)%nat -> exPi s a = softmax 2 exL exP0 exQ s a) /\
+  soft_fixed 1 2 exT exR (1/2) exL exP0 exV exQ /\
+  hard_fixed 1 2 exT exR (1/2) (fun _ => 2 * ln 3) /\
+  exQ 0%nat 0%nat < exQ 0%nat 1%nat /\ exPi 0%nat 0%nat <> exPi 0%nat 1%nat /\ exV 0%nat < 2 * ln 3.
+Lemma example_holds : example_statement.
+Proof.
+  repeat split; try apply ex_wf; try apply ex_eval; try apply ex_look; try apply ex_pi;
+    try apply ex_soft_fixed; try apply ex_hard_fixed; try apply ex_nontrivial.
+Qed.
+End Example.
